@@ -785,4 +785,200 @@ theorem tokNs_floor (t : Tok) (r : Nat) (hr : (units[t.unit]?).map (·.2) = some
 
 example : tokNs ⟨⟨41, 1⟩, 3⟩ = 4100000000 := by decide
 
+/-! ## Deepening round D: invariants through every way of indexing; chains -/
+
+/-- The samples of a well-formed continuous or time-series source are in chronological order. -/
+theorem wf_samples_sorted (s : Src) (h : s.WF) (hk : ∀ t, s ≠ .tags t) :
+    s.samples.Pairwise (fun x y => x.1 ≤ y.1) := by
+  cases s with
+  | cont c => exact samplesFrom_sorted c.dt h c.data c.start
+  | ts l => exact h
+  | tags t => exact absurd rfl (hk t)
+
+/-- A boolean mask yields a well-formed (chronological) time series. -/
+theorem applyMask_wf (s : Src) (h : s.WF) (m : List Bool) (r : Src) (hr : s.applyMask m = .ok r) : r.WF := by
+  cases s with
+  | tags t => cases hr
+  | cont c =>
+    simp only [Src.applyMask] at hr
+    split at hr
+    · rename_i l hl
+      injection hr with hr; subst hr
+      exact List.Pairwise.sublist (mask_sublist _ _ _ hl) (samplesFrom_sorted c.dt h c.data c.start)
+    · cases hr
+  | ts l0 =>
+    simp only [Src.applyMask] at hr
+    split at hr
+    · rename_i l hl
+      injection hr with hr; subst hr
+      exact List.Pairwise.sublist (mask_sublist _ _ _ hl) h
+    · cases hr
+
+theorem window_wf (s : Src) (h : s.WF) (a b : BoundArg) (r : Src) (hr : s.window a b = .ok r) : r.WF := by
+  rw [window_table] at hr
+  split at hr
+  · injection hr with hr; subst hr; exact h
+  · split at hr
+    · cases hr
+    · split at hr
+      · cases hr
+      · injection hr with hr; subst hr; exact wf_getitem s h _ _
+
+/-- **Every way of indexing preserves the invariants** (positive period / chronological order / time tags inside
+    their reported bounds): whatever `Slice.__getitem__` returns is again a well-formed source, so all theorems
+    above apply to chains of any length. -/
+theorem getitemFull_wf (s : Src) (h : s.WF) (it : Item) (r : Src) (hr : s.getitemFull it = .ok r) : r.WF := by
+  cases it with
+  | mask m => exact applyMask_wf s h m r hr
+  | slice a b step =>
+    cases step with
+    | true => cases hr
+    | false => exact window_wf s h a b r hr
+  | obj a b => exact window_wf s h a b r hr
+  | scalar => cases hr
+
+/-- derive → derive → query: a mask and then a window keep exactly the flagged samples inside the window. -/
+theorem mask_then_window (s : Src) (m : List Bool) (a b : BoundArg) (r r' : Src)
+    (h1 : s.getitemFull (.mask m) = .ok r) (h2 : r.getitemFull (.slice a b false) = .ok r') :
+    r'.samples = (maskSpec s.samples m).filter
+      (inWin (resolve r.start r.stop r.start a.toBound) (resolve r.start r.stop r.stop b.toBound)) := by
+  have hr : r = .ts (maskSpec s.samples m) := by
+    simp only [Src.getitemFull, src_applyMask_table] at h1
+    cases s with
+    | tags t => cases h1
+    | cont c =>
+      simp only at h1
+      split at h1
+      · injection h1 with h1; exact h1.symm
+      · cases h1
+    | ts l =>
+      simp only at h1
+      split at h1
+      · injection h1 with h1; exact h1.symm
+      · cases h1
+  have := getitemFull_window_spec r (by intro c hc; rw [hr] at hc; cases hc) a b r' h2
+  rw [this]
+  subst hr
+  rfl
+
+/-- … and a window and then a mask keep the flagged ones among the samples inside the window. -/
+theorem window_then_mask (s : Src) (hdt : ∀ c, s = .cont c → 0 < c.dt) (m : List Bool) (a b : BoundArg) (r r' : Src)
+    (h1 : s.getitemFull (.slice a b false) = .ok r) (h2 : r.getitemFull (.mask m) = .ok r') :
+    r'.samples = maskSpec (s.samples.filter
+      (inWin (resolve s.start s.stop s.start a.toBound) (resolve s.start s.stop s.stop b.toBound))) m := by
+  have hs := getitemFull_window_spec s hdt a b r h1
+  simp only [Src.getitemFull, src_applyMask_table] at h2
+  cases r with
+  | tags t => cases h2
+  | cont c =>
+    simp only at h2
+    split at h2
+    · injection h2 with h2; rw [← h2, ← hs]; rfl
+    · cases h2
+  | ts l =>
+    simp only at h2
+    split at h2
+    · injection h2 with h2; rw [← h2, ← hs]; rfl
+    · cases h2
+
+example : (Src.ts [(3, 0), (5, 1), (5, 2), (9, 3)]).getitemFull (.mask [true, false, true, true])
+    = .ok (.ts [(3, 0), (5, 2), (9, 3)]) := by rfl
+example : (Src.ts [(3, 0), (5, 2), (9, 3)]).getitemFull (.slice (.int 4) .none false)
+    = .ok (.ts [(5, 2), (9, 3)]) := by rfl
+
+
+/-! ## Deepening round D: Python's `$` and the literal regular expression -/
+
+theorem timeString_drop_newline (b : List Char) (w : Int) (h : TimeString (b ++ ['\n']) w) : TimeString b w := by
+  obtain ⟨body, toks, hbm, hh⟩ := h
+  rcases hh with ⟨hcs, hv⟩ | ⟨hcs, hv⟩
+  · subst hcs
+    exact ⟨b, toks, body_drop_newline b toks hbm, Or.inl ⟨rfl, hv⟩⟩
+  · cases b with
+    | nil => simp at hcs
+    | cons x xs =>
+      simp only [List.cons_append, List.cons.injEq] at hcs
+      obtain ⟨hx, hxs⟩ := hcs
+      subst hx; subst hxs
+      exact ⟨xs, toks, body_drop_newline xs toks hbm, Or.inr ⟨rfl, hv⟩⟩
+
+theorem timeString_functional (cs : List Char) (v w : Int) (h1 : TimeString cs v) (h2 : TimeString cs w) : v = w := by
+  have a := (matchFull_iff _ _).mpr h1
+  have b := (matchFull_iff _ _).mpr h2
+  rw [a] at b; injection b
+
+/-- `Timeindex(s).total_ns = v` exactly when `s`, or `s` without one final newline (Python's `$`), is a time string
+    of value `v`; the two readings never disagree. -/
+theorem parseTime_iff (s : String) (v : Int) :
+    parseTime s = some v ↔
+      TimeString s.toList v ∨ ∃ body, s.toList = body ++ ['\n'] ∧ TimeString body v := by
+  rw [parseTime_spec]
+  constructor
+  · rintro (h | ⟨_, h⟩)
+    · exact Or.inl h
+    · exact Or.inr h
+  · rintro (h | ⟨body, hb, hv⟩)
+    · exact Or.inl h
+    · by_cases hw : ∃ w, TimeString s.toList w
+      · obtain ⟨w, hw⟩ := hw
+        have := timeString_drop_newline body w (by rw [← hb]; exact hw)
+        have e := timeString_functional body v w hv this
+        subst e
+        exact Or.inl hw
+      · exact Or.inr ⟨fun w h => hw ⟨w, h⟩, body, hb, hv⟩
+
+/-- **The specification `BodyMatch` is the regular expression itself**: a text matches the pattern
+    `(G_d)?\s*(G_h)?\s*…\s*(G_ns)?` (textbook semantics) exactly when it has a `BodyMatch` derivation. -/
+theorem bodyMatch_iff_rx (cs : List Char) : rxBody.Matches cs ↔ ∃ toks, BodyMatch cs toks := by
+  have h6 := tail_base
+  have h5 := tail_step 5 (by omega) _ _ h6
+  have h4 := tail_step 4 (by omega) _ _ h5
+  have h3 := tail_step 3 (by omega) _ _ h4
+  have h2 := tail_step 2 (by omega) _ _ h3
+  have h1 := tail_step 1 (by omega) _ _ h2
+  unfold rxBody
+  simp only [rxJoin] at h1 ⊢
+  rw [seq_iff]
+  constructor
+  · rintro ⟨g, rest, rfl, hg, hrest⟩
+    obtain ⟨toks, ht⟩ := (h1 rest).mp hrest
+    rcases (group_iff 0 g).mp hg with rfl | ⟨tok, hg⟩
+    · exact ⟨toks, BodyMatch.absent _ _ ht⟩
+    · exact ⟨tok :: toks, BodyMatch.present g rest tok toks hg ht⟩
+  · rintro ⟨toks, h⟩
+    cases h with
+    | absent _ _ ht => exact ⟨[], cs, rfl, (group_iff 0 []).mpr (Or.inl rfl), (h1 cs).mpr ⟨toks, ht⟩⟩
+    | present g rest tok toks hg ht =>
+      exact ⟨g, rest, rfl, (group_iff 0 g).mpr (Or.inr ⟨tok, hg⟩), (h1 rest).mpr ⟨_, ht⟩⟩
+
+/-- The time strings are exactly the texts the whole pattern `-?(G_d)?\s*…\s*(G_ns)?` matches. -/
+theorem timeString_iff_rx (cs : List Char) : rxFull.Matches cs ↔ ∃ v, TimeString cs v := by
+  unfold rxFull
+  rw [seq_iff]
+  constructor
+  · rintro ⟨sg, body, rfl, hs, hb⟩
+    obtain ⟨toks, hbm⟩ := (bodyMatch_iff_rx body).mp hb
+    rcases (opt_iff _ _).mp hs with rfl | hs
+    · exact ⟨_, body, toks, hbm, Or.inl ⟨rfl, rfl⟩⟩
+    · obtain ⟨c, rfl, hc⟩ := (cls_iff _ _).mp hs
+      have : c = '-' := by simpa using hc
+      subst this
+      exact ⟨_, body, toks, hbm, Or.inr ⟨rfl, rfl⟩⟩
+  · rintro ⟨v, body, toks, hbm, h⟩
+    have hb := (bodyMatch_iff_rx body).mpr ⟨toks, hbm⟩
+    rcases h with ⟨rfl, _⟩ | ⟨rfl, _⟩
+    · exact ⟨[], cs, rfl, .opt_none _, hb⟩
+    · exact ⟨['-'], body, rfl, .opt_some _ _ (.cls _ '-' (by simp)), hb⟩
+
+/-- The hand-written matcher accepts exactly the texts the regular expression matches. -/
+theorem matchFull_accepts_iff_rx (cs : List Char) : (matchFull cs).isSome = true ↔ rxFull.Matches cs := by
+  rw [timeString_iff_rx, Option.isSome_iff_exists]
+  exact exists_congr fun v => matchFull_iff cs v
+
+
+/-- non-vacuity: the regular expression matches "-1m 30s" and not "1ns " (through the equivalence) -/
+example : rxFull.Matches "-1m 30s".toList := (matchFull_accepts_iff_rx _).mp (by decide)
+example : ¬ rxFull.Matches "1ns ".toList := fun h => by
+  have := (matchFull_accepts_iff_rx _).mpr h; revert this; decide
+
 end Verif.C01
